@@ -345,7 +345,17 @@ def emit_item(spec, log, vacuity=False):
             else:
                 raise ExtractError('%s: ret= given but function has no return type' % spec.path)
         if body_open is None:
-            raise ExtractError('%s: function without body' % spec.path)
+            # trait method declaration `fn f(..) -> T;`
+            if 'spec' in spec.sections:
+                ed.ins(st[it.last].start, '\n' + spec.sections['spec'] + '\n')
+                used.add('spec')
+            for key in spec.sections:
+                if key not in used and key != 'pre':
+                    raise ExtractError('%s: section %s not applicable to a declaration' % (spec.path, key))
+            text = ed.render()
+            log.append({'path': spec.path, 'file': sf.rel, 'start': start, 'end': end, 'sigonly': False,
+                        'rewrites': sorted(set(e[3] for e in ed.ed if e[3])), 'line': sf.src.count('\n', 0, start) + 1})
+            return '/*@B %s %d %d %s*/' % (sf.rel, start, end, spec.path.replace('*/', '')) + text + '/*@E*/'
         if 'spec' in spec.sections:
             sp = spec.sections['spec']
             if vacuity and 'sigonly' not in spec.opts:
